@@ -12,7 +12,7 @@ Template encoding (fixed Coq type `list (N * list N)`), one pair per f-string pa
   (5, [])    self.image             (6, spec) self.partition
 `spec` is the format-spec text ('' , 'd', 'x', ...) which the model interprets.
 """
-import ast, builtins
+import ast, re, builtins
 from translate import *
 
 NAME = 'Prep'
@@ -457,6 +457,31 @@ def detect_facts(prep):
             f'Definition fat_types_kinds_standard : bool := {coq_bool(kinds)}.']
 
 
+def resize_facts(prep, config):
+    f = find_func(prep.body, 'prepare_image')
+    first = None
+    for n in f.body:
+        if isinstance(n, ast.With):
+            first = n
+            break
+    class NoLog(ast.NodeTransformer):
+        def visit_Expr(self, node):
+            return ast.Pass() if isinstance(node.value, ast.Call) and 'logger.' in ast.unparse(node.value.func) else node
+    txt = ast.unparse(NoLog().visit(first)) if first is not None else ''
+    want = ("with conf.image.open('ab') as f:\n    size = f.seek(0, os.SEEK_END)\n    if size < conf.size:\n        pass\n"
+            "        f.seek(conf.size)\n        f.truncate()\n    else:\n        pass")
+    sz = ast.unparse(find_func(config.body, 'size'))
+    size_ok = all(x in sz for x in ("enumerate(['KB', 'MB', 'GB', 'TB'], start=1)", "n = Decimal(s[:-len(suffix)])", "result = int(n * 2 ** (10 * power))",
+                                    "if s.endswith('B'):", "result = int(s[:-1])", "result = int(s)"))
+    m = re.search(r"'--size', type=size, default='(\d+)([KMGT]?B?)'", ast.unparse(find_func(prep.body, 'get_parser')))
+    if not m:
+        raise TranslateError('--size default not found')
+    return [f'Definition resize_block_standard : bool := {coq_bool(txt == want)}.',
+            f'Definition size_parser_standard : bool := {coq_bool(size_ok)}.',
+            f'Definition size_default_mantissa : N := {coq_N(int(m.group(1)))}.',
+            f'Definition size_default_suffix : list N := {coq_bytes(m.group(2))}.']
+
+
 def emit():
     prep = parse('prep.py')
     config = parse('config.py')
@@ -470,4 +495,5 @@ def emit():
     lines += board_facts(config, server)
     lines += open_file_facts(tools)
     lines += detect_facts(prep)
+    lines += resize_facts(prep, config)
     return '\n'.join(lines) + '\n'
